@@ -177,6 +177,13 @@ func check(o *runOpts) int {
 	for p := range cs.PkgDirs {
 		pkgSet[p] = true
 	}
+	renderedNeeded := map[string]bool{}
+	for p := range pkgSet {
+		if cs.Rendered[p] {
+			renderedNeeded[p] = true
+			delete(pkgSet, p)
+		}
+	}
 	var patterns []string
 	for p := range pkgSet {
 		patterns = append(patterns, p)
@@ -195,9 +202,35 @@ func check(o *runOpts) int {
 		return toolingFailure(o, "repository does not type-check: "+prog.loadErrs[0])
 	}
 
+	var rprog *Prog
+	if len(renderedNeeded) > 0 {
+		var rerr error
+		for _, e := range []string{"gin", "echo", "mux", "chi", "fiber"} {
+			renderedNeeded["fxproj/out/"+e] = true
+		}
+		rprog, rerr = loadRendered(o, cs, renderedNeeded)
+		renderedProgCache = rprog
+		if rerr != nil {
+			fmt.Fprintln(os.Stderr, "render:", rerr)
+			return toolingFailure(o, "rendering the fixture project failed: "+rerr.Error())
+		}
+	}
 	var units []*unitResult
 	for _, k := range keys {
 		fc := cs.Funcs[k]
+		if cs.Rendered[fc.Pkg] {
+			u := &unitResult{key: k}
+			if fn := rprog.ssaFunc(k); fn != nil {
+				u.vc = translateFunc(rprog, fn, fc)
+			} else {
+				vc := newVC(rprog, k)
+				vc.props = fc.Props
+				vc.unsupported("contract-stale: rendered function %s not found", k)
+				u.vc = vc
+			}
+			units = append(units, u)
+			continue
+		}
 		fn := prog.ssaFunc(k)
 		u := &unitResult{key: k}
 		if fn == nil {
